@@ -4,13 +4,14 @@
     rule files (internal/filtering/safesearch/rules/*.txt + rules.go) and picks
     the name universes for (tier, seed).
  2. TLC: SafeSearch.tla -- TableSpec (decision vectors), RespSpec (whose
-    settings count + what the DNS server answers), Spec (the state machine, two
+    settings count + what the DNS server answers), Spec (the state machine, three
     universes: mc = global only, TTL 2, four query types; client = with the
-    persistent client; invariants of the statement checked exhaustively).
+    persistent client; mc3 = TTL 3 (TLC coverage statistics in both tiers, walked
+    in the thorough tier); invariants of the statement checked exhaustively).
  3. Direction A: the table is replayed into package safesearch (fresh engines
     and one long-lived DNSFilter driven through its HTTP handlers); the
-    labelled edges of the state machines are walked (edge-covering tour) on one
-    real system under a virtual clock, reply + projected state compared after
+    labelled edges of the state machines are walked (edge-covering tour + seeded
+    random walk) on one real system under a virtual clock, reply + projected state compared after
     every step; the response vectors are replayed into a real dnsforward.Server
     and, at verdict level with the real client life cycle (HTTP add / update /
     delete, restart from the configuration objects), into package home.
@@ -63,6 +64,8 @@ def stale_engine_explains(rules, boot_g, steps, got):
     PUT with enabled=true, or of the start-up configuration if that was
     enabled, or none), and the observed verdict is exactly what that stale
     engine gives."""
+    if not steps:
+        return False
     engine = set(boot_g["sv"]) if boot_g["en"] else None
     g = {"en": boot_g["en"], "sv": list(boot_g["sv"])}
     cl = None
@@ -102,7 +105,7 @@ def classify_walk(rules, rec):
     try:
         if stale_engine_explains(rules, rec["boot"]["g"], rec["steps"], rec["got"]):
             return KEY_STALE
-    except (KeyError, TypeError):
+    except (KeyError, TypeError, IndexError):
         pass
     return None
 
@@ -470,7 +473,7 @@ def run(ctx):
     quick = ctx.quick
     with concurrent.futures.ThreadPoolExecutor(max_workers=8) as ex:
         f_table = ex.submit(g.leg_table)
-        extra = 20000 if quick else 200000
+        extra = 20000 if quick else 300000
         frac = 0.4 if quick else 1.0   # quick: the tours cover a seeded 40 % of the edges
         f_mc = ex.submit(g.leg_walk, "SafeSearch.mc.cfg", "mc", False, frac, extra)
         f_cl = ex.submit(g.leg_walk, "SafeSearch.client.cfg", "client", False, frac, extra, ("pass", "cname", "ip"))
@@ -542,5 +545,18 @@ def replay(ctx, path):
         bad = [x for x in vlib.read_ndjson(vout) if x.get("kind") == "bad"]
         print(json.dumps({"expected": rec["want"], "observed": [b["got"] for b in bad] or "admissible"}, indent=1))
         return 1 if bad else 0
-    print(json.dumps({"record": rec, "note": "replay of this leg: re-run ./check G03 with the same VERIF_SEED"}, indent=1)[:2000])
+    if rec.get("leg") in ("resp", "home"):
+        field, pkg, test = ("o", PKG_DF, "^TestZZVerifG03Resp$") if rec["leg"] == "resp" else ("v", PKG_HOME, "^TestZZVerifG03Home$")
+        if "qt" not in rec:
+            print(json.dumps({"record": rec, "note": "configuration read-back disagreement: re-run ./check G03 with the same VERIF_SEED"}, indent=1)[:2000])
+            return 2
+        vec = {"t": "r", "g": rec["g"], "cl": rec["cl"], "prot": rec["prot"], "who": rec["who"], "q": rec["q"], "lc": rec["lc"],
+               field: {rec["qt"]: rec["want"]}}
+        vin, vout = ctx.path("g03_replay_in.ndjson"), ctx.path("g03_replay_out.ndjson")
+        vlib.write_ndjson(vin, [vec])
+        rc, out = ctx.go_test(pkg, FILES, test, env={"VERIF_IN": vin, "VERIF_OUT": vout})
+        bad = [x for x in vlib.read_ndjson(vout) if x.get("kind") == "bad"]
+        print(json.dumps({"expected": rec["want"], "observed": [[b.get("got"), b.get("problem", "")] for b in bad] or "admissible"}, indent=1))
+        return 1 if bad else 0
+    print(json.dumps({"record": rec, "note": "trace line: re-run ./check G03 with the same VERIF_SEED (the history is in record.steps)"}, indent=1)[:3000])
     return 2
